@@ -711,6 +711,39 @@ def scale_covers(ctx):
                     'scale_system does not multiply by the power of s the '
                     'quantity carries: ' + what_,
                     construct='scale power: ' + what_.split(':')[0]))
+    # every first-power length written by scale_system itself is written as
+    # `q = q * scale_factor` (either order, or `q *= scale_factor`)
+    first_power = ('height', 'offset', 'x', 'y', 'norm_x', 'norm_y', 'value',
+                   'r_max', 'r_min')
+    nlaw = 0
+    for st in ast.walk(f.node):
+        tgt = val = None
+        if isinstance(st, ast.Assign) and len(st.targets) == 1:
+            tgt, val = st.targets[0], st.value
+        elif isinstance(st, ast.AugAssign):
+            tgt, val = st.target, st
+        if not (isinstance(tgt, ast.Attribute) and tgt.attr in first_power):
+            continue
+        t = unparse(tgt)
+        if isinstance(val, ast.AugAssign):
+            ok_ = isinstance(val.op, ast.Mult) and \
+                unparse(val.value) == 'scale_factor'
+        else:
+            ok_ = isinstance(val, ast.BinOp) and isinstance(val.op, ast.Mult) \
+                and {unparse(val.left), unparse(val.right)} == \
+                {t, 'scale_factor'}
+        nlaw += 1
+        if ok_:
+            res.ok(f'scale_system: {t} -> {t} * s')
+        else:
+            res.fail(ctx.finding(
+                'SCALE-COVERS', f, st,
+                f'scale_system writes the length {t} as '
+                f'`{unparse(st)[:70]}`, which is not {t} * scale_factor',
+                construct=f'scale law {t}'))
+    if nlaw < 6:
+        raise AnalysisError(f'SCALE-COVERS: only {nlaw} first-power stores '
+                            f'found in scale_system, 8 confirmed by reading')
     for what in sorted(set(LENGTH_ATTRS.values())):
         if what in missing:
             res.fail(ctx.finding(
